@@ -332,7 +332,9 @@ def main():
     elif not lean["driver_ok"]:
         pass
     else:
-        run = run_cases(prop, tier, seed, outdir, only=only)
+        # the quick tier runs in about a minute on the unchanged tree: a run that is not back after twenty is a
+        # search (or a child) that no longer ends — reported as a broken correspondence, not waited for
+        run = run_cases(prop, tier, seed, outdir, only=only, timeout=1200 if tier == "quick" else 3000)
         if "error" in run:
             tie_broken.append("correspondence run failed: " + run["error"])
 
